@@ -26,7 +26,7 @@ use rustc_middle::mir::{
     Rvalue, StatementKind, TerminatorKind, UnwindAction,
 };
 use rustc_middle::ty::print::{with_crate_prefix, with_no_trimmed_paths};
-use rustc_middle::ty::{self, Instance, Ty, TyCtxt, TypingEnv};
+use rustc_middle::ty::{self, Instance, Ty, TyCtxt, TypeVisitableExt, TypingEnv};
 use rustc_span::Span;
 use std::collections::{HashMap, HashSet};
 use std::fmt::Write as _;
@@ -711,6 +711,23 @@ impl<'tcx> Dumper<'tcx> {
                 if let Const::Unevaluated(u, _) = c {
                     let p = self.def_str(u.def);
                     let _ = write!(s, ",\"def\":{}", js(&p));
+                    if u.promoted.is_some() {
+                        let _ = write!(s, ",\"promoted\":true");
+                    }
+                    // evaluated value (tags, magics, thresholds), when not generic
+                    if !tcx.generics_of(owner).requires_monomorphization(tcx)
+                        && !u.args.iter().any(|a| a.has_non_region_param())
+                    {
+                        let env2 = TypingEnv::post_analysis(tcx, owner);
+                        if let Ok(v) = c.eval(tcx, env2, rustc_span::DUMMY_SP) {
+                            let cv = Const::Val(v, ty);
+                            let mut d = with_no_trimmed_paths!(format!("{}", cv));
+                            if d.len() > 200 {
+                                d.truncate(200);
+                            }
+                            let _ = write!(s, ",\"ev\":{}", js(&d));
+                        }
+                    }
                 }
                 // scalar value
                 let env = TypingEnv::post_analysis(tcx, owner);
